@@ -14,8 +14,8 @@ from harness import core
 # ----------------------------------------------------------------------------------------------
 # optimiser tolerance budgets on twice_nll (= 2 f + const): the certificate value 2*eps bounds
 # twice_nll(x*) - min twice_nll from above.  MIGRAD stops at EDM < 0.002*tol*errordef = 2e-4 (tol=0.1),
-# SLSQP at ftol=1e-6 relative change; the budgets leave a factor ~10 over the worst value seen on the pinned tree.
-BUDGET = {'scipy': 2e-3, 'minuit': 5e-3}
+# SLSQP at ftol=1e-6; worst certified values over 2067 fits of a thorough run on the pinned tree: scipy 1.6e-6, minuit 5.2e-4.
+BUDGET = {'scipy': 1e-4, 'minuit': 3e-3}
 SPREAD = 5e-3            # cross-configuration spread of the attained twice_nll on one problem
 FUN_RTOL = 1e-9          # reported fun vs twice_nll re-evaluated at the returned point (same backend)
 BACKENDS = ['numpy', 'jax', 'pytorch', 'tensorflow']
@@ -440,7 +440,7 @@ def configs_for(ctx, k, kind='affine'):
         r = ctx.rng
         if ctx.quick:
             combos = r.sample(combos, 2 if be != 'tensorflow' else 1)
-        elif k % 6:                    # thorough: every sixth problem runs every combination, the others a sample of each backend
+        elif k % 8:                    # thorough: every eighth problem runs every combination, the others a sample of each backend
             combos = r.sample(combos, 3 if be != 'tensorflow' else 1)
         out += [(be,) + c for c in combos]
     return out
@@ -596,8 +596,8 @@ def run(ctx):
         p['_corpus_cfg'] = [tuple(body['config'])]
         p['_corpus'] = True
         problems.append(p)
-    na, npr, nc = ctx.n(36, 120), ctx.n(8, 24), ctx.n(8, 24)
-    problems += [make_problem(rng, 'affine', i, small=ctx.quick or i % 4 != 0) for i in range(na)]
+    na, npr, nc = ctx.n(36, 60), ctx.n(8, 12), ctx.n(8, 12)
+    problems += [make_problem(rng, 'affine', i, small=ctx.quick or i % 8 != 0) for i in range(na)]
     problems += [make_problem(rng, 'product', i, small=True) for i in range(npr)]
     problems += [counting_problem(rng, i) for i in range(nc)]
     # the float32 sweep: a fixed-POI fit at values that are not float32 numbers on every backend
@@ -621,7 +621,7 @@ def run(ctx):
                 p['mask'][j] = False
         p['_corpus_cfg'] = [(be, 'minuit', False, True), (be, 'scipy', be != 'numpy', True)] + ([('numpy', 'scipy', False, False)] if be != 'numpy' else [])
         problems.append(p)
-    for i in range(ctx.n(4, 20)):          # starting points outside the bounds must be refused before any optimiser runs
+    for i in range(ctx.n(4, 10)):          # starting points outside the bounds must be refused before any optimiser runs
         p = make_problem(rng, 'affine', 2000 + i, small=True)
         j = rng.choice([q_ for q_ in range(p['npars']) if not (p['kind'] == 'fixed_poi' and q_ == p['poi_index'])] or [0])
         if p['kind'] == 'fixed_poi' and rng.random() < 0.5:
